@@ -167,3 +167,50 @@ Proof.
   exists [("Book", "a.x/Book"); ("book", "b.x/Book")], [("book", "b.x/Book"); ("Book", "a.x/Book")].
   split; [apply perm_swap | vm_compute; discriminate].
 Qed.
+
+(* ---- pruning by an allow-set ---- *)
+Lemma mem_str_In x l : mem_str x l = true <-> In x l.
+Proof.
+  unfold mem_str. rewrite existsb_exists. split.
+  - intros [y [Hy He]]. apply String.eqb_eq in He. subst. exact Hy.
+  - intros H. exists x. split; [exact H | apply String.eqb_refl].
+Qed.
+
+Lemma mem_str_same_elements x a1 a2 : (forall y, In y a1 <-> In y a2) -> mem_str x a1 = mem_str x a2.
+Proof.
+  intros H. destruct (mem_str x a1) eqn:E1; destruct (mem_str x a2) eqn:E2; try reflexivity.
+  - apply mem_str_In in E1. apply H in E1. apply mem_str_In in E1. congruence.
+  - apply mem_str_In in E2. apply H in E2. apply mem_str_In in E2. congruence.
+Qed.
+
+Theorem prune_decl_enum_invariant decl a1 a2 :
+  (forall y, In y a1 <-> In y a2) -> prune_decl decl a1 = prune_decl decl a2.
+Proof.
+  intros H. unfold prune_decl. apply filter_ext. intros k. apply mem_str_same_elements. exact H.
+Qed.
+
+Theorem prune_decl_keeps_exactly decl allow k : In k (prune_decl decl allow) <-> In k decl /\ In k allow.
+Proof. unfold prune_decl. rewrite filter_In, mem_str_In. tauto. Qed.
+
+Theorem prune_decl_app d1 d2 allow : (prune_decl (d1 ++ d2) allow = prune_decl d1 allow ++ prune_decl d2 allow)%list.
+Proof. unfold prune_decl. apply filter_app. Qed.
+
+Theorem prune_decl_single k allow : prune_decl [k] allow = if mem_str k allow then [k] else [].
+Proof. reflexivity. Qed.
+
+Theorem prune_by_set_same_elements decl a1 a2 k :
+  (forall y, In y a1 <-> In y a2) -> (In k (prune_by_set decl a1) <-> In k (prune_by_set decl a2)).
+Proof. intros H. unfold prune_by_set. rewrite !filter_In, H. tauto. Qed.
+
+Theorem prune_by_set_refuted :
+  exists decl a1 a2, NoDup a1 /\ NoDup a2 /\ (forall y, In y a1 <-> In y a2) /\
+                     prune_by_set decl a1 <> prune_by_set decl a2.
+Proof.
+  exists ["A"; "B"], ["A"; "B"], ["B"; "A"].
+  repeat split.
+  - repeat constructor; simpl; intuition discriminate.
+  - repeat constructor; simpl; intuition discriminate.
+  - simpl; tauto.
+  - simpl; tauto.
+  - vm_compute. discriminate.
+Qed.
